@@ -13,7 +13,7 @@ from rules.framework import _is_pkg_yield, descriptor_writes
 
 # steps whose descriptor/stream count agreement is *not* modelled, with the reason (DESIGN §5 C02.1)
 COUNT_UNMODELLED = {
-    'dataflows.processors.concatenate:concatenate.func':
+    'dataflows.processors.concatenate:concatenate':      # keyed by the public factory: the inner step's name is private
         'run detection is a prefix/suffix state machine plus islice(it, n-1); only consumption and pass-through are checked',
 }
 
@@ -427,8 +427,9 @@ def r6_count_agreement(ctx, steps=None, rule='R6b'):
     for fi in steps:
         if is_source_step(ctx, fi):
             continue
-        if fi.qualname in COUNT_UNMODELLED:
-            run.note('%s: %s' % (fi.qualname, COUNT_UNMODELLED[fi.qualname]))
+        from sa.model import toplevel_qualname
+        if toplevel_qualname(fi) in COUNT_UNMODELLED:
+            run.note('%s: %s' % (fi.qualname, COUNT_UNMODELLED[toplevel_qualname(fi)]))
             continue
         ds = descr_signature(ctx, fi)
         loops = [rl for rl in step_resloops(ctx, fi) if rl.kind == 'for']
